@@ -641,7 +641,8 @@ def traced_codes():
     codes.append(SpectralWindow.channel_freqs.fget.__code__)
     # SensorCache: the public entry points; the long static helpers (_extract, _get_props) run under the
     # lock and are yield points in the thorough tier only
-    for nm in ('get', '__getitem__', '__setitem__', '__delitem__', '__contains__', 'get_with_fallback'):
+    # (_get_props iterates over the shared props dict: a yield point in every tier)
+    for nm in ('get', '__getitem__', '__setitem__', '__delitem__', '__contains__', 'get_with_fallback', '_get_props'):
         f = getattr(SensorCache, nm, None)
         if f is not None and hasattr(f, '__code__'):
             codes.append(f.__code__)
@@ -907,6 +908,40 @@ def _split(r, d):
     return out
 
 
+def session_privacy(ctx):
+    """The hypothesis of `pool_session_state_private` (Props/C20.lean): the mutable per-request state of a borrowed
+    S3 session (the transport adapter whose `max_retries` S3ChunkStore.request() sets before sending) belongs to that
+    session alone.  Two sessions are borrowed at the same time from the store's own pool; the retry policy written
+    to one must not show through the other, and nothing mutable is shared between them."""
+    from katdal.chunkstore_s3 import S3ChunkStore
+    url = 'http://127.0.0.1:9'
+    bad = []
+    for public_read in (False, True):
+        store = S3ChunkStore(url, timeout=(0.1, 0.1), retries=0, public_read=public_read)
+        pool = store._session_pool
+        with pool() as a, pool() as b:
+            what = None
+            if a is b:
+                what = 'two concurrent borrowers received the same session object'
+            else:
+                for prefix in a.adapters:
+                    if prefix in b.adapters and a.adapters[prefix] is b.adapters[prefix]:
+                        what = (f'two sessions borrowed at the same time share one transport adapter for {prefix!r}: '
+                                f'the retry policy S3ChunkStore.request() sets on one is seen by the other')
+                if what is None:
+                    marker = object()
+                    a.get_adapter(url).max_retries = marker
+                    if b.get_adapter(url).max_retries is marker:
+                        what = 'setting max_retries through one borrowed session changed the other session\'s policy'
+                if what is None and (a.headers is b.headers or a.cookies is b.cookies):
+                    what = 'two sessions borrowed at the same time share their headers / cookies object'
+        ctx.tag('session-privacy')
+        ctx.count(('session-privacy', public_read), True, sample={'object': 's3-session-privacy'})
+        if what:
+            bad.append((dict(object='session-privacy', public_read=public_read), what))
+    return bad
+
+
 # ------------------------------------------------------------------------------------------------
 # entry points
 
@@ -939,6 +974,8 @@ def run(ctx):
     ctx.extra['controlled_s'] = round(time.time() - t0, 1)
     for case, what in load_compare(ctx):
         ctx.violation(case, what)
+    for case, what in session_privacy(ctx):
+        ctx.violation(case, what)
     ctx.assumptions = ['one source line of the anchored methods is the unit of interleaving',
                        'a transition observed between two yield points may bundle up to %d model steps of the '
                        'moving thread (line granularity is coarser than the model)' % FUEL]
@@ -959,7 +996,7 @@ def run(ctx):
 
 
 def _shrink(case, what):
-    if case.get('object') == 'load':
+    if case.get('object') in ('load', 'session-privacy'):
         return case, what
     c2, w2 = shrink_schedule(case, sequential_results)
     return (c2, w2) if w2 else (case, what)
@@ -969,7 +1006,7 @@ def replay(ctx, rep):
     _quiet()
     build = common.build_and_audit('C20', 'quick')
     case = rep.get('case')
-    if not case or case.get('object') == 'load':
+    if not case or case.get('object') in ('load', 'session-privacy'):
         # nothing schedule-shaped to replay: run the quick check again
         return run(ctx)
     kind, variant, schedule = case['object'], case['variant'], case['schedule']
